@@ -24,4 +24,5 @@ def run(chk, tier):
         prog = model.Program(fx[c], c)
         layout_terms.agreement(chk, prog, c)
         layout_terms.flag_encoding(chk, prog, c)
+        layout_terms.value_layouts(chk, prog, c)
         rules_ptr.cast_only(chk, prog, config=c)
